@@ -140,6 +140,10 @@ type Engine struct {
 	CrossChecked   int
 	CrossDisagree  []string
 	CrossDismissed int // cross-solver "sat" answers whose model failed validation and which cvc5 refuted
+	CrossUnknown   int // cross-solver gave no verdict within its limit
+	CrossAbandoned int // obligations not re-asked because the cross solver had given up on their label
+	crossGiveUp    map[string]int
+	crossCount     map[string]int
 	CrossSolvers   []string
 	curMaxInput    int
 	freeSeq        int // concrete replay: index of the next unconditional fork
@@ -757,10 +761,40 @@ func (e *Engine) crossCheck(label string, neg *Term) {
 	if len(e.CrossSolvers) == 0 {
 		return
 	}
+	if e.crossGiveUp == nil {
+		e.crossGiveUp = map[string]int{}
+	}
+	// the cross solver (z3 4.8.12) does not decide some obligation families at all (non-linear
+	// Int): after three consecutive "unknown" for one label the label is no longer re-asked
+	// (counted in CrossAbandoned, reported in the evidence)
+	if e.crossGiveUp[label] >= 3 {
+		e.CrossAbandoned++
+		return
+	}
+	// a fresh process per re-ask costs ~30 ms: each label is re-asked at most CrossPerLabel times
+	// per harness (the first ones met), the rest is counted as not re-asked
+	if e.crossCount == nil {
+		e.crossCount = map[string]int{}
+	}
+	e.crossCount[label]++
+	if e.crossCount[label] > 400 {
+		e.CrossAbandoned++
+		return
+	}
 	script := e.tt.Standalone(append(e.pcTerms(), neg))
+	to := time.Duration(e.OblTO) * time.Millisecond
+	if to > 8*time.Second {
+		to = 8 * time.Second
+	}
 	for _, s := range e.CrossSolvers {
-		r := RunStandalone(s, script, time.Duration(e.OblTO)*time.Millisecond)
+		r := RunStandalone(s, script, to)
 		e.CrossChecked++
+		if r == "unsat" {
+			e.crossGiveUp[label] = 0
+		} else if r != "sat" {
+			e.crossGiveUp[label]++
+			e.CrossUnknown++
+		}
 		if r == "sat" {
 			// A dissenting "sat" is dismissed only when the dissenter's own model fails its
 			// validation AND a third solver (cvc5) independently answers unsat; anything
